@@ -774,6 +774,107 @@ def _fields(v):
     return fields_in_slice(v)
 
 
+def _const_bytes(f, v):
+    """bytes of a constant string operand (with its terminator), None if it is not one"""
+    v = strip_casts(v)
+    if v.is_inst and v.op == "getelementptr" and all((el[0] in ("*", "[]") and el[1].is_const and el[1].sval == 0) for el in v.x["gep"]):
+        v = strip_casts(v.ops[0])
+    if v.is_const and getattr(v, "gname", None):
+        g = f.unit.globals.get(v.gname)
+        if g and g.get("init") and g["init"][0] == "s":
+            return bytes(x & 0xFF for x in g["init"][1])
+    return None
+
+
+def probe_magic_rule(chk, prog):
+    """K12-probemagic (sibling agreement): the probe that decides 'this is plain tar, do not look for a compressor' accepts
+    every header the header reader accepts.  Both compare the magic member with constant strings; for each variant the
+    reader knows (a non-empty constant compared with tar_header_t.magic), the bytes the probe compares at that offset are
+    a prefix of it.  A probe that is stricter than the reader sends valid archives of that flavour to the magic number
+    detection, where a member name decides what happens."""
+    st = prog.struct("struct.tar_header_t")
+    if st is None:
+        chk.broke("struct tar_header_t not found")
+        return 0
+    moff = [e["off"] for e in st["elems"] if e.get("n") == "magic"]
+    if not moff:
+        chk.broke("tar_header_t has no member 'magic'")
+        return 0
+    moff = moff[0]
+    variants, probes = [], []
+    # the probe side: the function that sniffs the input (it asks xfrm_compressor_id_from_magic) and what it calls in its unit
+    probe_fns = set()
+    for f in prog.functions():
+        if not f.decl and any(norm_callee(c.callee) == "xfrm_compressor_id_from_magic" for c in f.build().calls()):
+            cl, _e, _u = prog.reachable_from([f], stop=lambda g, u=f.unit: g.unit is not u)
+            probe_fns |= set(cl)
+    for f in prog.functions():
+        if f.decl or not f.unit.src.startswith("lib/tar/src/"):
+            continue
+        for c in f.build().calls():
+            if norm_callee(c.callee) not in ("memcmp", "strncmp", "bcmp") or len(c.ops) < 3:
+                continue
+            ln = c.ops[2]
+            if not (ln.is_const and ln.is_int):
+                continue
+            for a, b in ((c.ops[0], c.ops[1]), (c.ops[1], c.ops[0])):
+                k = _const_bytes(f, b)
+                if k is None:
+                    continue
+                p_ = strip_casts(a)
+                q_ = p_
+                while q_.is_inst and q_.op == "getelementptr" and not q_.field():
+                    q_ = strip_casts(q_.ops[0])         # array decay in front of the member access
+                if q_.is_inst and q_.op == "getelementptr" and q_.field() and q_.field()[1] == "magic" and "tar_header_t" in q_.field()[0]:
+                    if any(k[:ln.uval]):
+                        (probes if f in probe_fns else variants).append((f, c, (k + bytes(16))[:ln.uval]))
+                else:
+                    base, off, exact = resolve_ptr(prog, a, f.unit)
+                    bb = strip_casts(base)
+                    # raw bytes of a buffer at the offset of the magic (directly or through a phi that skips a leading record)
+                    if exact and off == moff and (bb.is_arg or (bb.is_inst and bb.op in ("phi", "load"))):
+                        probes.append((f, c, (k + bytes(16))[:ln.uval]))
+                    elif bb.is_inst and bb.op == "phi" and not exact:
+                        pass
+    if not probes:
+        # data + offset with a variable that holds offsetof(magic)
+        for f in prog.functions():
+            if f.decl or not f.unit.src.startswith("lib/tar/src/"):
+                continue
+            for c in f.calls():
+                if norm_callee(c.callee) not in ("memcmp", "strncmp", "bcmp") or len(c.ops) < 3 or not (c.ops[2].is_const and c.ops[2].is_int):
+                    continue
+                for a, b in ((c.ops[0], c.ops[1]), (c.ops[1], c.ops[0])):
+                    k = _const_bytes(f, b)
+                    p_ = strip_casts(a)
+                    if k is None or not (p_.is_inst and p_.op == "getelementptr"):
+                        continue
+                    idx = [el[1] for el in p_.x["gep"] if el[0] in ("*", "[]")]
+                    if any(x.is_const and x.is_int and x.sval == moff for i_ in idx for x in [i_] + list(backward_slice(i_, phi_control=False))):
+                        probes.append((f, c, (k + bytes(16))[:c.ops[2].uval]))
+    n = 0
+    if not variants:
+        chk.broke("the header reader compares tar_header_t.magic with no constant")
+        return 0
+    if not probes:
+        chk.broke("no probe compares raw bytes at the offset of the magic with a constant")
+        return 0
+    for (pf, pc, pk) in probes:
+        chk.analysed(pf)
+        n += 1
+        inst = "%s:magic@%d" % (pf.name, pc.line)
+        bad = [(vf, vc, vk) for (vf, vc, vk) in variants if not (len(pk) <= len(vk) and vk[:len(pk)] == pk)]
+        if not bad:
+            chk.ok("K12-probemagic", inst, pc, "the %d bytes the probe compares are a prefix of each of the %d magic strings the header "
+                   "reader accepts" % (len(pk), len(variants)))
+        else:
+            chk.violation("K12-probemagic", inst, pc, "the probe compares %r (%d bytes) at the offset of the magic, the header reader (%s, "
+                          "line %d) also accepts %r: archives of that flavour fail the probe and are handed to the compressor "
+                          "detection, where the first member's name decides whether they are read at all"
+                          % (pk, len(pk), bad[0][0].name, bad[0][1].line, bad[0][2]))
+    return n
+
+
 def probe_rule(chk, prog):
     """K12-probe: compressed input is recognised whatever its length.  In the function that sniffs the input and wraps it
     in a decompressing stream, no condition on the number of bytes the peek delivered stands between the peek and the
@@ -845,6 +946,8 @@ def run(chk):
     trailer_rule(chk, load_program("sqfs2tar"))
     member_rule(chk, prog)
     probe_rule(chk, prog)
+    probe_magic_rule(chk, prog)
+    chk.floor("K12-probemagic", 1)
     chk.floor("K12-probe", 1)
     pending_invariant_rule(chk, load_program("sqfs2tar"))
     truncated_rule(chk, prog)
